@@ -47,4 +47,41 @@ def c02(tier, seed, work):
     return rep
 
 
-PLANS = {"C02": c02}
+VER_OPS = {"CreateBucket", "PutObject", "GetObject", "HeadObject", "DeleteObject", "PutVersioning", "GetVersioning",
+           "GetObjectVersion", "HeadObjectVersion", "DeleteObjectVersion", "DeleteMultiVersions", "ListVersions",
+           "ListObjects"}
+VER_INVS = ["TypeOK", "UniqueVids"]
+
+
+def c05(tier, seed, work):
+    rep = Report("C05", tier, seed)
+    st = dict(invariants=VER_INVS, properties=STORE_PROPS)
+    # every transition of one key's version history: <= 2 version-creating steps, any
+    # number of status changes, reads, version deletes in between
+    tour_stage(rep, work, "ver-1k-2v", "MC_Store",
+               store_consts(Buckets={"bkt1"}, KeySetName="a", CfgName="mem", OpNames=VER_OPS, MaxVids=2, Ghosts=False),
+               ["mem"], **st)
+    # three versions, without the status-reading operations
+    tour_stage(rep, work, "ver-1k-3v", "MC_Store",
+               store_consts(Buckets={"bkt1"}, KeySetName="a", CfgName="mem", Bodies={"x1"}, MaxVids=3, Ghosts=False,
+                            OpNames={"CreateBucket", "PutObject", "DeleteObject", "PutVersioning",
+                                     "DeleteObjectVersion", "GetObjectVersion"}),
+               ["mem"], **st)
+    if tier == "thorough":
+        tour_stage(rep, work, "ver-1k-3v-all", "MC_Store",
+                   store_consts(Buckets={"bkt1"}, KeySetName="a", CfgName="mem", OpNames=VER_OPS, MaxVids=3,
+                                Ghosts=False), ["mem"], timeout=3000, small=True, **st)
+        tour_stage(rep, work, "ver-2k-2v", "MC_Store",
+                   store_consts(Buckets={"bkt1"}, KeySetName="ab", CfgName="mem", Bodies={"x1"},
+                                OpNames=VER_OPS - {"HeadObject", "GetVersioning"}, MaxVids=2, Ghosts=False),
+                   ["mem"], timeout=3000, small=True, **st)
+    rep.assumptions += [
+        "version ids of versions created while versioning was not enabled, by copy or by multi-delete are not "
+        "revealed by any reply and are never addressed by id",
+        "delete while Suspended and Suspend on a never-versioned bucket are don't-care regions resolved to what "
+        "the code does for generation (DESIGN 5.2)",
+    ]
+    return rep
+
+
+PLANS = {"C02": c02, "C05": c05}
